@@ -47,7 +47,14 @@ impl<F> RankCalc<F> {
                     // the rank computed from this iteration.
                     ranks[child_fn_id.index()] = cmp::max(child_rank_existing, child_rank_maybe);
 
-                    fn_ids.push_back(child_fn_id);
+                    // Only revisit the child when its rank increased: its descendants' ranks
+                    // cannot change otherwise. (Every node with a parent has its rank raised
+                    // from 0 at least once, so all nodes are still visited.) Re-queueing it
+                    // unconditionally visits each node once per path from a root, which is
+                    // exponential for layered / dense graphs.
+                    if child_rank_maybe > child_rank_existing {
+                        fn_ids.push_back(child_fn_id);
+                    }
                 });
         }
 
